@@ -202,6 +202,25 @@ Proof.
     unfold cl_keep. cbn [sc_slot sc_authorized sc_vis sc_ticks]. repeat split; auto.
 Qed.
 
+(* the operations that do not touch the client records *)
+Lemma apply_sop_clients s op :
+  match op with SVis _ _ _ | SMap _ _ _ => True | _ => sv_clients (apply_sop s op) = sv_clients s end.
+Proof.
+  destruct op as [e marker comps|e|e k v|e k|e k v|e|e|slot e visible|slot e pc]; try exact I; unfold apply_sop.
+  - destruct (get_ent s e); reflexivity.
+  - destruct (get_ent s e) as [x|]; [|reflexivity]. destruct (se_alive x); [|reflexivity].
+    destruct (se_marker x); [rewrite sv_clients_buffer_despawn|]; reflexivity.
+  - destruct (get_ent s e) as [x|]; [|reflexivity]. destruct (se_alive x && val_ok s v); reflexivity.
+  - destruct (get_ent s e) as [x|]; [|reflexivity]. destruct (se_alive x); [|reflexivity].
+    destruct (al_get k (se_comps x)); reflexivity.
+  - destruct (get_ent s e) as [x|]; [|reflexivity]. destruct (se_alive x && val_ok s v); [|reflexivity].
+    destruct (al_get k (se_comps x)); reflexivity.
+  - destruct (get_ent s e) as [x|]; [|reflexivity]. destruct (se_alive x); [|reflexivity].
+    destruct (se_marker x); reflexivity.
+  - destruct (get_ent s e) as [x|]; [|reflexivity]. destruct (se_alive x); [|reflexivity].
+    destruct (se_marker x); [rewrite sv_clients_buffer_despawn|]; reflexivity.
+Qed.
+
 (* the invariant of a client is carried along [cl_keep] *)
 Lemma pending_ok_v_keep s cl cl' st : cl_keep cl cl' -> pending_ok_v s cl st -> pending_ok_v s cl' st.
 Proof.
